@@ -469,15 +469,34 @@ def check_both(chk, rng, tier):
     """one pair of worker batches for the general differential and the T8.single family"""
     progs = programs(rng, tier)
     items = single_programs(rng, tier)
-    reuse = reuse_programs()
+    reuse = fixed_programs() + reuse_programs()
     rn, rt = run_both(progs + [p for p, _ in items] + reuse)
     n, m = len(progs), len(progs) + len(items)
     bad = check_differential(chk, progs, rn[:n], rt[:n])
     if bad is None:
         bad = check_single(chk, items, rn[n:m], rt[n:m])
+    nf = len(FIXED_CORPUS)
+    badf = check_reuse(chk, reuse[:nf], rn[m:m + nf], rt[m:m + nf])
+    if badf is not None:
+        fid = FIXED_CORPUS[[p[1:] for p in reuse[:nf]].index(badf["program"])][0]
+        badf["kind"] = "regression of repaired finding %s: %s" % (fid, badf["kind"])
+        return badf
     if bad is None:
-        bad = check_reuse(chk, reuse, rn[m:], rt[m:])
+        bad = check_reuse(chk, reuse[nf:], rn[m + nf:], rt[m + nf:])
     return bad
+
+
+# one witness per REPAIRED finding, replayed at every run (every statement compared)
+FIXED_CORPUS = [
+    ("C08-torch-reduce-axis", ["a::[[1 2] [3 4]]", "+/a", "*/a", "f::{+/x}", "f(a)"]),
+    ("C08-torch-scan-0d", ["a::[1 2 3]", "*\\(+/a)", "&\\(|/a)", "#(&\\(|/a))"]),
+    ("C08-torch-subtract-divide-reduce-axis", ["a::[[5 6] [1 2] [3 1]]", "-/a", "(-/a)+a", "b::[[8.0 6.0] [2.0 3.0]]", "%/b"]),
+    ("C05-torch-equal-operand", ["a::4.0", "(a=2)>0", "(a=4)|0"]),
+]
+
+
+def fixed_programs():
+    return [["@all"] + st for _, st in FIXED_CORPUS]
 
 
 def check_reuse(chk, progs, rn, rt):
